@@ -99,6 +99,8 @@ func init() {
 			c.OneElementPerIteration(ob1b, relInterp, "(*programState).makeAllotment")
 			obErrNotDropped(c, "C12.3a")
 			obErrImpliesZero(c, "C12.3b")
+			ob3c := c.R.Ob("C12.3c", "errflow/store-first", "the answer of a Store call is used only where its error was tested to be nil", 2)
+			c.StoreErrorCheckedFirst(ob3c, c.P.Named(relInterp, "Store"))
 		},
 	}
 }
